@@ -27,7 +27,8 @@ ASSUMPTIONS = [
 MIN_NONTRIVIAL = 8
 REQUIRED_COUNTERS = {'c10_evaluations_repeated': 60,
                      'c10_fresh_vs_long_lived_compared': 60,
-                     'c10_comment_lists_checked': 100}
+                     'c10_comment_lists_checked': 100,
+                     'c10_jobs_after_a_lost_comment_reply': 3}
 SHARD_TIMEOUT = {'quick': 900, 'thorough': 5400}
 MONITORS = [monitors.c10_no_adjacent_duplicates,
             monitors.c10_no_phantom_hold]
@@ -59,7 +60,20 @@ def op_blocked(g):
                               '/after_pull_request=99', '/approve']))
 
 
-OPENERS = [None, op_reset_twice, op_help_then_status, op_blocked,
+def op_comment_reply_lost(g):
+    """the host stores the robot's comment but the reply is lost (read
+    timeout): whatever the job does about it, the next evaluations must not
+    post the message again"""
+    pr = g.new_pr(g.rng.choice(g.dests()))
+    g.w.do('comment', pr=pr['id'], user=AUTHOR,
+           text=g.rng.choice(['@robot unknown_thing', '@robot status',
+                              '@robot help', '/after_pull_request=99']))
+    g.w.do('arm_lost_reply', call='add_comment', nth=1)
+    g.run('pr', pr['id'])
+    g.run('pr', pr['id'])
+
+
+OPENERS = [None, op_comment_reply_lost, op_reset_twice, op_help_then_status, op_blocked,
            gen.OPENERS['two_prs_same_base'], gen.OPENERS['three_queued'],
            gen.OPENERS['partial_merge'], gen.OPENERS['partial_merge'],
            gen.OPENERS['dependency_then_other'],
@@ -87,10 +101,17 @@ def run_shard(spec, acc):
         for qm in ('queue', 'noqueue'):
             configs.append({'layout': layout, 'queue_mode': qm,
                             'settings': {'required_peer_approvals': 1}})
-    for i in range(-1 if spec['shard'] < 6 else 0, nstates):
+    for i in range(-1 if spec['shard'] < 9 else 0, nstates):
         cfg = configs[(spec['shard'] + i * spec['nshards']) % len(configs)]
         op = OPENERS[rng.randrange(len(OPENERS))]
-        if i < 0 and spec['shard'] >= 3:
+        if i < 0 and spec['shard'] >= 6:
+            # directed: a comment whose reply is lost
+            op = op_comment_reply_lost
+            cfg = {'layout': ['d2', 'd3', 's1d2'][spec['shard'] - 6],
+                   'queue_mode': ['queue', 'noqueue', 'queue'][
+                       spec['shard'] - 6]}
+            acc.count('c10_directed_comment_reply_lost')
+        elif i < 0 and spec['shard'] >= 3:
             # directed: a pull request partially merged through the queue
             # (the instance remembers it as merged), still open
             op = gen.OPENERS['partial_merge']
@@ -121,6 +142,8 @@ def run_shard(spec, acc):
                 acc.seen('job_outcomes', '%s:%s' % (rec['kind'],
                                                      rec['status']))
                 monitors.c10_no_adjacent_duplicates(world, rec, acc, {})
+                if world.lost_replies:
+                    acc.count('c10_jobs_after_a_lost_comment_reply')
                 monitors.c10_no_phantom_hold(world, rec, acc, {})
             g = gen.Gen(world, rng, gen.profile(
                 p_green=0.8, p_forward=0.5,
